@@ -67,7 +67,9 @@ def errOfName (n : String) : Err :=
   | "dupUri" => .dupUri | "dupPrefix" => .dupPrefix | "dupKeys" => .dupKeys
   | "dupValues" => .dupValues | "inconsistent" => .inconsistent | "cycle" => .cycle
   | "transitive" => .transitive | "keyError" => .keyError | "indexError" => .indexError
-  | "typeError" => .typeError | _ => .other
+  | "typeError" => .typeError
+  | "libValue" => .compression    -- an unnamed subclass of ConversionError / StandardizationError
+  | _ => .other
 
 /-- decode an observed value (what the implementation returned) -/
 def val (j : Json) : D Val :=
@@ -95,6 +97,9 @@ def val (j : Json) : D Val :=
     | .error _ =>
     match j.getObjVal? "e" with
     | .ok x => do pure (.err (errOfName (← x.getStr?)))
+    | .error _ =>
+    match j.getObjVal? "bad" with
+    | .ok x => do pure (.bad (← x.getStr?))
     | .error _ => throw s!"cannot decode value {j.compress}"
 
 /-! ### encoding -/
